@@ -54,7 +54,8 @@ def gen_case(rng, tier, adaptive=False):
                 for i, t in enumerate(targets):
                     ext.append({"tgt": t, "samples": [row[i] for row in arr]})
             else:
-                arr = [C.q2s(F(rng.randint(-5, 5))) for _ in range(steps)]
+                n_samples = steps if not adaptive else rng.choice([3, 5, 9])         # adaptive: every input has its own length / time grid
+                arr = [C.q2s(F(rng.randint(-5, 5))) for _ in range(n_samples)]
                 inputs[key] = arr                                                                     # 1-D: broadcast to every addressed node
                 for t in targets:
                     ext.append({"tgt": t, "samples": arr})
@@ -64,11 +65,13 @@ def gen_case(rng, tier, adaptive=False):
         case = {"mdl": mdl, "run": {"T": C.q2s(dt * steps), "dt": C.q2s(dt), "solver": rng.choice(["euler", "heun"]), "vectorize": vectorize,
                                     "outputs": {f"v{i}": p for i, p in enumerate(sp)}, "inputs": inputs, "inputs_col_vector": colvec},
                 "ext_inputs": ext, "style": {}, "in_place": rng.random() < 0.5, "adaptive": adaptive}
+        if not adaptive and not vectorize and rng.random() < 0.3:
+            case["run"]["backend"] = "jax"
         if adaptive:
             # func(t, y) probes: get_run_func places N samples on linspace(0, N*dt, N)
-            Tq = dt * steps
-            h = Tq / (steps - 1)
-            case["probe_t"] = [C.q2s(h * F(rng.randint(-2, 4 * (steps - 1) + 2), 4)) for _ in range(3)]
+            n0 = len(ext[0]["samples"])
+            h = (dt * n0) / (n0 - 1)
+            case["probe_t"] = [C.q2s(h * F(rng.randint(-2, 4 * (n0 - 1) + 2), 4)) for _ in range(3)]
             case["points"] = [{p: C.q2s(F(rng.randint(-3, 3), rng.choice([1, 2]))) for p in sp} for _ in range(3)]
             o = oracle_adaptive(case)
         else:
@@ -200,7 +203,7 @@ def check(tier, seed, replay=None):
         if "crash" in im:
             raise C.HarnessError("harness child crashed: " + str(im)[:800])
         multi = len(case["ext_inputs"]) > len(case["run"]["inputs"]) or len({x["tgt"] for x in case["ext_inputs"]}) < len(case["ext_inputs"])
-        rep.count(("A-" if case.get("adaptive") else "F-") + case["run"]["solver"] + ("-vec" if case["run"]["vectorize"] else ""), json.dumps(case, sort_keys=True), nontrivial=multi)
+        rep.count(("A-" if case.get("adaptive") else "F-") + case["run"]["solver"] + ("-vec" if case["run"]["vectorize"] else "") + ("-jax" if case["run"].get("backend") == "jax" else ""), json.dumps(case, sort_keys=True), nontrivial=multi)
         if not case.get("adaptive"):
             mr = drv.ask(N.model_traj_request(case, orc["flat"]))
             if mr.get("rows") != orc["rows"]:
